@@ -8,11 +8,15 @@ pub mod c02;
 pub mod c03;
 pub mod bmoc_common;
 pub mod c04;
+pub mod c05;
+pub mod c06;
+pub mod cone_common;
 pub mod c07;
 pub mod c08;
 pub mod c10;
 pub mod c11;
 pub mod c14;
+pub mod c15;
 pub mod c16;
 pub mod c17;
 pub mod c18;
@@ -33,11 +37,14 @@ pub fn registry() -> Vec<PropEntry> {
     PropEntry { id: "C02", meta: c02::meta, run: c02::run, replay: c02::replay, profiles: &["release", "chk"] },
     PropEntry { id: "C03", meta: c03::meta, run: c03::run, replay: c03::replay, profiles: &["release", "chk"] },
     PropEntry { id: "C04", meta: c04::meta, run: c04::run, replay: c04::replay, profiles: &["release", "chk"] },
+    PropEntry { id: "C05", meta: c05::meta, run: c05::run, replay: c05::replay, profiles: &["release", "chk"] },
+    PropEntry { id: "C06", meta: c06::meta, run: c06::run, replay: c06::replay, profiles: &["release"] },
     PropEntry { id: "C07", meta: c07::meta, run: c07::run, replay: c07::replay, profiles: &["release", "chk"] },
     PropEntry { id: "C08", meta: c08::meta, run: c08::run, replay: c08::replay, profiles: &["release", "chk"] },
     PropEntry { id: "C10", meta: c10::meta, run: c10::run, replay: c10::replay, profiles: &["release", "chk"] },
     PropEntry { id: "C11", meta: c11::meta, run: c11::run, replay: c11::replay, profiles: &["release", "chk"] },
     PropEntry { id: "C14", meta: c14::meta, run: c14::run, replay: c14::replay, profiles: &["release", "chk"] },
+    PropEntry { id: "C15", meta: c15::meta, run: c15::run, replay: c15::replay, profiles: &["release", "chk"] },
     PropEntry { id: "C16", meta: c16::meta, run: c16::run, replay: c16::replay, profiles: &["release"] },
     PropEntry { id: "C17", meta: c17::meta, run: c17::run, replay: c17::replay, profiles: &["release", "chk"] },
     PropEntry { id: "C18", meta: c18::meta, run: c18::run, replay: c18::replay, profiles: &["release", "chk", "bmi2"] },
